@@ -205,10 +205,34 @@ func genC12LimitWindow(seed uint64, r *rng) *Scenario {
 	if len(probes) == 0 {
 		return sc
 	}
+	// A predecessor abandoned by its deadline in the middle of the interpreter loop (stacks partly filled),
+	// on the same limited Regexp: whatever it leaves on the reused stacks must not count against the limit
+	// of the calls that follow.  Only for Regexps that have an input on which they are catastrophic.
+	heavies := map[int]Op{}
+	if r.chance(1, 2) {
+		for k := range sc.Res {
+			for try := 0; try < 3; try++ {
+				u := []string{"a", "ab", "a ", "b", "abc"}[r.n(5)]
+				h := Op{Kind: []int{OpMatchString, OpFindString, OpFindRunes}[r.n(3)], Re: k, In: InputSpec{Unit: u, Rep: 18 + r.n(20), Suf: []string{"!", "#", "!c", "\n!"}[r.n(4)]}, N: -1, Heavy: true}
+				maxD := scriptOpCap*cl.Cost/4 - 3*sc.PeriodNs
+				if maxD <= 2*sc.PeriodNs {
+					break
+				}
+				h.TimeoutNs = 2*sc.PeriodNs + r.i64(min64(maxD-2*sc.PeriodNs, 40*sc.PeriodNs))
+				if v := pristine(sc.Res[k], &h, scriptOpCap); v.capped {
+					heavies[k] = h
+					break
+				}
+			}
+		}
+	}
 	kinds := []int{OpFindString, OpMatchString, OpFindAllString, OpReplace, OpFindRunes, OpMatchRunes, OpSplit, OpFindStringAt, OpCompatAllSubmatch}
 	for n := 4 + r.n(14); n > 0; n-- {
 		p := probes[r.n(len(probes))]
 		op := p.op
+		if h, ok := heavies[op.Re]; ok && r.chance(1, 3) {
+			cl.Ops = append(cl.Ops, h)
+		}
 		op.Kind = kinds[r.n(len(kinds))]
 		op.Repl = pickRepl(r)
 		switch r.n(4) {
